@@ -240,7 +240,9 @@ def classify(o, out, rc):
         d["why"] = "timeout"
         return "UNDECIDED", d
     if rc not in (0, 10):
-        d["why"] = "cbmc rc=%s: %s" % (rc, out[-400:].replace("\n", " | "))
+        errl = [l for l in out.splitlines() if re.search(r"(?i)error|exception|bad_alloc|out of memory|invariant|abort", l)
+                and not RES_RE.match(l)]
+        d["why"] = "cbmc rc=%s: %s" % (rc, (" | ".join(errl[-4:]) or out[-300:].replace("\n", " | "))[:500])
         return "UNDECIDED", d
     if not res:
         d["why"] = "no properties parsed (vacuous harness?)"
@@ -290,6 +292,28 @@ def run_obligation(o, repo, scratch, keep=False):
     try:
         ok, gb, info = build(o, repo, work)
         rec["build"] = info
+        if not ok and o.fallback and (gb.startswith("annotate:") or gb.startswith("extract")):
+            # The contract text could not be attached (the code's loop structure changed).  That alone is never a
+            # violation; but a BOUNDED counterexample search on the real function (no loop contracts) may still find a
+            # definite counterexample to the same function contract, which is one.  Anything else stays undecided.
+            why0 = gb
+            fb = Obl(o); fb.update(o.fallback)
+            fdir = os.path.join(work, "fb"); os.makedirs(fdir, exist_ok=True)
+            ok2, gb2, info2 = build(fb, repo, fdir)
+            if ok2:
+                cmd = cbmc_cmd(fb, gb2, "minisat")
+                rc, out, wall = run(cmd, fb.timeout or 600, fb.mem_gb or 12, fdir)
+                st, d = classify(fb, out, rc)
+                if st == "REFUTED":
+                    rec.update(status=st, backend="minisat", cbmc=" ".join(cmd).replace(work, "$W"), wall_s=round(wall, 2),
+                               note="contract not attachable (%s); refuted by the bounded fallback search" % why0, **d)
+                    rec["cbmc_output_tail"] = "\n".join(l for l in out.splitlines() if "FAILURE" in l)[:4000]
+                    rec["trace"] = get_trace(fb, gb2, "minisat", d, fdir)
+                    if o.witness:
+                        rec["witness"] = run_witness(o, repo, work, d)
+                    return rec
+            rec.update(status="UNDECIDED", why=why0 + " (bounded fallback search found no counterexample)")
+            return rec
         if not ok:
             rec.update(status="UNDECIDED", why=gb)
             return rec
@@ -505,7 +529,7 @@ def main():
                          "strength": o.strength or "U", "functions": o.functions or []}
                 recs.append(r)
                 done += 1
-                if r["status"] != "PROVED" or done % 50 == 0 or len(obls) < 40:
+                if r["status"] != "PROVED" or done % 50 == 0 or len(obls) < 40 or os.environ.get("VERIF_VERBOSE"):
                     log("[%d/%d] %-28s %-9s %s %ss %s" % (done, len(obls), r["id"], r["status"], r.get("backend", ""),
                                                          r.get("wall_s", ""), (r.get("why") or "")[:300]))
     finally:
